@@ -51,7 +51,8 @@ def rand_time(rng):
         return rng.uniform(-100, 1000)
     if r < 0.8:
         return rng.uniform(0, 1) * 10 ** rng.randint(-3, 9)
-    return rng.choice([0.1, 1 / 3, 2 / 3, 1e-5, 123456.789, 0.30000000000000004])
+    # (incl. values that repr() writes in exponent notation)
+    return rng.choice([0.1, 1 / 3, 2 / 3, 1e-5, 123456.789, 0.30000000000000004, 5e-05, -3.5e-05, 7.25e-06, 1.7e+18, 2.5e+16, 1e+22])
 
 
 def units_set(c):
@@ -112,6 +113,8 @@ def gen_roundtrip(rng):
             d = rng.choice([1.0, rng.uniform(1e-4, 50), 1e-5 * (1 + abs(s))])
             if (s + d) - s <= 2e-6:
                 d = 1.0
+            if (s + d) - s <= 2e-6:
+                d = abs(s) * 1e-3       # a time so large that adding 1 does not change it
             units.add((a, s, s + d, rng.choice(HOSTILE)))
     return {"kind": "roundtrip", "units": [list(u) for u in sorted(units, key=repr)], "delimiter": rng.choice([",", ";", "\t", "|"]),
             "time_type": rng.choice(["float", "float", "np.float64", "int"])}
@@ -255,12 +258,11 @@ def check_textgrid(ctx, case):
         tg.append(p)
     tg.write(path)
     prepare, extra, selections = _history(case, [n for n, _ in case["tiers"]])
-    if case.get("point_tier"):
-        selections = [[n for n, _ in case["tiers"]] if sel is None else sel for sel in selections]
     ctx.observe("import_history", str(case.get("prior")))
     selected = selections
     try:
-        for tier_as_label in (False, True):
+        # the same unchanged file is imported several times in this process, in either order of the two label modes
+        for tier_as_label in case.get("label_mode_order") or (False, True):
             exp = set(extra)
             for name, intervals in case["tiers"]:
                 if not any(sel is None or name in sel for sel in selections):
@@ -304,7 +306,16 @@ def gen_textgrid(rng):
         src = rng.randrange(len(tiers))
         dst = rng.choice([i for i in range(len(tiers)) if i != src])
         tiers[dst][1] = [[s_, e_, rng.choice(["", "N", "V", "hello world", "a"])] for s_, e_, _ in tiers[src][1]]
+    if rng.random() < 0.2:
+        # two tiers bearing the same name (legal in Praat): each holds its own intervals
+        t = 100.0
+        ivs = []
+        for _ in range(rng.randint(1, 4)):
+            ivs.append([t, t + 1.5, rng.choice(["", "dup", "a"])])
+            t += 2.0
+        tiers.append([tiers[0][0], ivs])
     return {"kind": "textgrid", "tiers": tiers, "selected": sel, "point_tier": rng.random() < 0.3,
+            "label_mode_order": rng.choice([[False, True], [True, False], [True, False, True], [False, True, False]]),
             "prior": rng.choice([None, None, "registered", "units", "other-annotator", "twice"])}
 
 
@@ -319,14 +330,29 @@ def check_elan(ctx, case):
         eaf.add_tier(name)
         for s, e, v in anns:
             eaf.add_annotation(name, s, e, v)
+    ref = case.get("ref_tier")
+    all_tiers = list(case["tiers"])
+    if ref:
+        # a reference tier (symbolic association): its annotations borrow the interval of the parent annotation they refer to
+        eaf.add_linguistic_type("sym-assoc", constraints="Symbolic_Association", timealignable=False)
+        eaf.add_tier(ref["parent"])
+        for s, e, v in ref["parent_anns"]:
+            eaf.add_annotation(ref["parent"], s, e, v)
+        eaf.add_tier(ref["name"], ling="sym-assoc", parent=ref["parent"])
+        for k, v in ref["refs"]:
+            s, e, _ = ref["parent_anns"][k]
+            eaf.add_ref_annotation(ref["name"], ref["parent"], (s + e) // 2, v)
+        all_tiers.append([ref["parent"], ref["parent_anns"]])
+        all_tiers.append([ref["name"], [[ref["parent_anns"][k][0], ref["parent_anns"][k][1], v] for k, v in ref["refs"]]])
+        ctx.observe("elan_reference_tier", True)
     eaf.remove_tier("default")
     eaf.to_file(path)
-    prepare, extra, selections = _history(case, [n for n, _ in case["tiers"]])
+    prepare, extra, selections = _history(case, [n for n, _ in all_tiers])
     ctx.observe("import_history", str(case.get("prior")))
     try:
-        for tier_as_label in (False, True):
+        for tier_as_label in case.get("label_mode_order") or (False, True):
             exp = set(extra)
-            for name, anns in case["tiers"]:
+            for name, anns in all_tiers:
                 if not any(sel is None or name in sel for sel in selections):
                     continue
                 for s, e, v in anns:
@@ -363,7 +389,16 @@ def gen_elan(rng):
         src = rng.randrange(len(tiers))
         dst = rng.choice([i for i in range(len(tiers)) if i != src])
         tiers[dst][1] = [[s_, e_, rng.choice(["N", "V", "b c", "a"])] for s_, e_, _ in tiers[src][1]]
-    return {"kind": "elan", "tiers": tiers, "selected": sel,
+    ref = None
+    if rng.random() < 0.3:
+        pa, t = [], 200000
+        for _ in range(rng.randint(1, 5)):
+            pa.append([t, t + rng.randrange(200, 3000), rng.choice(["p", "parent ü", "x"])])
+            t = pa[-1][1] + rng.randrange(0, 500)
+        ref = {"name": "gloss", "parent": "ref-parent", "parent_anns": pa,
+               "refs": [[k, rng.choice(["G", "gl oss", "x"])] for k in range(len(pa)) if rng.random() < 0.7]}
+    return {"kind": "elan", "tiers": tiers, "selected": sel, "ref_tier": ref,
+            "label_mode_order": rng.choice([[False, True], [True, False], [True, False, True]]),
             "prior": rng.choice([None, None, "registered", "units", "other-annotator", "twice"])}
 
 
